@@ -75,8 +75,15 @@ let substr s k = if k > String.length s then raise (Model_exc "out_of_range") el
 let pattern_mask (pat : string) (n : int) : bool list option =
   let m0 = List.init n (fun _ -> false) in
   match pat.[0] with
-  | '%' -> let start = atoi (substr pat 1) in let stride = atoi (substr pat 3) in
-    C.pattern_loop (n + 2) n stride start m0
+  | '%' ->
+    (* as repaired (fix: pmask_pattern start of two or more digits): split at the first ':';
+       precondition(colon found); precondition(start >= 0 && stride > 0) *)
+    (match String.index_opt pat ':' with
+     | None -> raise (Model_exc "runtime_error")
+     | Some colon ->
+       let start = atoi (String.sub pat 1 (colon - 1)) in let stride = atoi (substr pat (colon + 1)) in
+       if start < 0 || stride <= 0 then raise (Model_exc "runtime_error") else
+       C.pattern_loop (n + 2) n stride start m0)
   | '<' -> let m = atoi (substr pat 1) in Some (List.init n (fun i -> i < min m n))
   | '>' -> let m = atoi (substr pat 1) in Some (List.init n (fun i -> i >= m))
   | _ -> raise (Model_exc "runtime_error")
